@@ -171,7 +171,19 @@ def in_test_code(body):
     return "::tests::" in body.name or body.name.endswith("::tests") or "::test::" in body.name
 
 
-def writer_tokens(fx, p):
+def unsize_source_type(body, term, argidx):
+    """Type before an unsizing coercion of call argument #argidx (e.g. `&[u8; 20]` for a `&[u8]` parameter)."""
+    o = term["ops"][argidx]
+    pl = o.get("mv") or o.get("cp")
+    if not pl or "p" in pl:
+        return None
+    for i, si, s in body.assigns(include_cleanup=False):
+        if s["lhs"].get("l") == pl["l"] and "p" not in s["lhs"] and "cast" in s["rv"] and s["rv"]["cast"].startswith("Ptr:"):
+            return s["rv"].get("from")
+    return None
+
+
+def writer_tokens(fx, p, body=None):
     """Output token sequence of one path of a `write_bytes`-style function.
 
     tokens: ('int', bits, endian-type, value-expr, line) | ('image', type-string, source-expr, line)
@@ -197,7 +209,12 @@ def writer_tokens(fx, p):
                 b = bytes.fromhex(x[3]) if x[2] == "bytes" else x[3].encode()
                 toks.append(("lit", b, line))
             else:
-                toks.append(("bytes", x, line))
+                src_ty = unsize_source_type(body, e[7], 1) if body is not None else None
+                m = re.match(r"&(?:mut )?\[u8; (\d+)\]$", src_ty or "")
+                if m:
+                    toks.append(("fixed", int(m.group(1)), x, line))
+                else:
+                    toks.append(("bytes", x, line))
             continue
         if re.search(r"::write_bytes$", name) or re.search(r"::write_bytes$", decl):
             toks.append(("sub", name, args, line))
